@@ -18,6 +18,7 @@ type GenConfig struct {
 	Retry      bool // allow Sr (lost response + retry)
 	Detach     bool // allow D / re-A
 	Undo       bool // allow Z / Y
+	Racing     bool // allow Sc: the identical request sent several times concurrently
 	FailUpd    bool // allow failing updaters
 	Presence   bool // presence edits
 	Interval   int64
@@ -222,7 +223,11 @@ func Generate(r *rng.R, g GenConfig) *History {
 		case 4:
 			h.Steps = append(h.Steps, Step{Op: "Sp", C: c})
 		case 5:
-			h.Steps = append(h.Steps, Step{Op: "Sr", C: c})
+			if g.Racing && r.Chance(1, 2) {
+				h.Steps = append(h.Steps, Step{Op: "Sc", C: c})
+			} else {
+				h.Steps = append(h.Steps, Step{Op: "Sr", C: c})
+			}
 		case 6:
 			if r.Bool() {
 				h.Steps = append(h.Steps, Step{Op: "D", C: c})
